@@ -60,11 +60,15 @@ func CmdRunAction(c *cli.Context) error {
 	if appbase.HasExt(input, ".wat") {
 		watBytes, err := os.ReadFile(input)
 		if err != nil {
-			return err
+			fmt.Println(err)
+			os.Exit(1)
+			return nil
 		}
 		wasmBytes, err := watutil.Wat2Wasm(input, watBytes)
 		if err != nil {
-			return err
+			fmt.Println(err)
+			os.Exit(1)
+			return nil
 		}
 		var appArgs []string
 		if args := c.Args().Slice(); len(args) > 2 {
@@ -177,6 +181,7 @@ func CmdRunAction(c *cli.Context) error {
 			os.Exit(exitCode)
 		}
 		fmt.Println(err)
+		os.Exit(1)
 	} else {
 		if len(stdout) > 0 {
 			fmt.Fprint(os.Stdout, string(stdout))
@@ -209,7 +214,9 @@ func runWasm(input string, wasmBytes, fsetBytes []byte, args ...string) error {
 	var err error
 	if len(wasmBytes) == 0 {
 		if wasmBytes, err = os.ReadFile(input); err != nil {
-			return err
+			fmt.Println(err)
+			os.Exit(1)
+			return nil
 		}
 	}
 	if fsetBytes == nil {
@@ -231,6 +238,7 @@ func runWasm(input string, wasmBytes, fsetBytes []byte, args ...string) error {
 			os.Exit(exitCode)
 		}
 		fmt.Println(err)
+		os.Exit(1)
 		return nil
 	}
 	if len(stdout) > 0 {
